@@ -48,6 +48,7 @@ func c16Contents(u c16Unit) []byte {
 }
 
 func c16ListExec(c *core.Ctx, in c16List) {
+	c.Distinct(core.Hash64("list", fmt.Sprint(in.Units)), len(in.Units) >= 1)
 	pco := nasConvert.NewProtocolConfigurationOptions()
 	var want []byte
 	want = append(want, 0x80)
@@ -127,6 +128,7 @@ func c16ListExec(c *core.Ctx, in c16List) {
 
 func c16RawExec(c *core.Ctx, in c16Raw) {
 	data := unhex(in.Hex)
+	c.Distinct(core.Hash64("raw", data), len(data) >= 4)
 	pco := nasConvert.NewProtocolConfigurationOptions()
 	var err error
 	cp := append([]byte{}, data...)
@@ -159,6 +161,7 @@ func c16RawExec(c *core.Ctx, in c16Raw) {
 }
 
 func c16PsiExec(c *core.Ctx, in c16Psi) {
+	c.Distinct(core.Hash64("psi", in.Bits), in.Bits != 0 && in.Bits != 0xFFFF)
 	var arr [16]bool
 	for i := 0; i < 16; i++ {
 		arr[i] = in.Bits>>uint(i)&1 == 1
@@ -409,6 +412,6 @@ func init() {
 			return "PCO lists of 0..3 (4 thorough) units over 5 identifiers x 6 content lengths (first two positions complete, deeper positions on a stride), every content length 0..255 of one unit, the Add… constructors; UnMarshal on every byte string of length <= 6 (8 thorough) over {00,01,02,03,80,FF} and the <=2-mutation neighbourhood of a valid encoding; all 65 536 PDU session bitmaps in both directions. Oracle: serialisation = 0x80 then id/length/contents per unit; parse(serialise(l)) = l; for arbitrary bytes no panic and every parsed unit is literally in the input at the offset a straightforward reader computes; bitmap bit i <-> bit (i mod 8) of octet (i div 8)."
 		},
 		Assumptions: []string{"a trailing unit without a complete header may be dropped silently by the parser (the property only forbids invented contents and panics)"},
-		Finish:      func(m *core.Merged, cov map[string]any) { cov["distinct_nontrivial"] = m.Counters["evaluations"] },
+		Finish:      finishDistinct("distinct by unit list / input octets / bitmap; non-trivial = lists with at least one unit, raw inputs that reach a container header (>= 4 octets), bitmaps other than all-clear and all-set"),
 	})
 }
